@@ -23,3 +23,10 @@ mod unbond;
 mod convert;
 #[cfg(test)]
 mod testing;
+
+/// Verification hook (off unless built with `--cfg krp_verif`): exposes the crate-private
+/// arithmetic helper to the conformance harness. Adds no behaviour.
+#[cfg(krp_verif)]
+pub mod verif_hooks {
+    pub use crate::math::decimal_division;
+}
